@@ -151,6 +151,17 @@ func (p *PS[S]) init() {
 
 // assume adds the consequences of e having truth t to facts; it returns false on contradiction.
 func (p *PS[S]) assume(facts Facts, e ast.Expr, t bool, depth int) bool {
+	// a compound condition as a whole is a fact too: `if a || b || c { l = lock() } ... if a || b || c { unlock(l) }`
+	// repeats the same pure expression, and the disjunction being true says nothing about its parts
+	if k, ok := p.compoundKey(e); ok {
+		if prev, known := facts[k]; known {
+			if prev != t {
+				return false
+			}
+		} else {
+			facts[k] = t
+		}
+	}
 	for _, a := range Assume(e, t) {
 		k, flip, ok := p.AtomKey(a.Expr)
 		if !ok {
@@ -184,9 +195,26 @@ func (p *PS[S]) constBool(e ast.Expr) *bool {
 	return nil
 }
 
+// compoundKey returns the fact key of a pure compound boolean expression (a conjunction or disjunction).
+func (p *PS[S]) compoundKey(e ast.Expr) (string, bool) {
+	be, ok := ast.Unparen(e).(*ast.BinaryExpr)
+	if !ok || (be.Op != token.LOR && be.Op != token.LAND) || !p.pure(be) {
+		return "", false
+	}
+	return "expr:" + p.M.RawString(be), true
+}
+
 // eval3 evaluates e under facts: 1 true, 0 false, -1 unknown.
 func (p *PS[S]) eval3(facts Facts, e ast.Expr) int {
 	e = ast.Unparen(e)
+	if k, ok := p.compoundKey(e); ok {
+		if v, known := facts[k]; known {
+			if v {
+				return 1
+			}
+			return 0
+		}
+	}
 	if c := p.constBool(e); c != nil {
 		if *c {
 			return 1
